@@ -447,7 +447,7 @@ func (mw *MW) Exec(i int, a world.Act) {
 		mw.stepLine(i, a, world.Outcome{Out: "ok"})
 	case "MntDeposit":
 		// a user sends coins to the multisig (or elsewhere) with a command payload.
-		//   class: ok | feehigh | notjson | badrcv | badtype | negfee | other
+		//   class: ok | feehigh | notjson | badrcv | badtype | negfee | other | edit
 		w.BumpStep()
 		user := w.N.Ext(a.S("user"))
 		coin, _ := strconv.ParseUint(w.ExtTokenId(Chain, a.S("tok")), 10, 64)
@@ -479,7 +479,13 @@ func (mw *MW) Exec(i int, a world.Act) {
 		if class == "notjson" {
 			payload = []byte("hello")
 		}
-		h, txs := mw.C.AddBlock([]mnt.Tx{{Type: 1, From: mx(user.Addr.Hex()), To: to, Coin: coin, Value: amt.BigInt(), Payload: payload}})
+		tx := mnt.Tx{Type: 1, From: mx(user.Addr.Hex()), To: to, Coin: coin, Value: amt.BigInt(), Payload: payload}
+		if class == "edit" {
+			// the members edit the multisig by hand (same members): a multisig transaction that is no bridge event
+			tx = mnt.Tx{Type: 18, From: mw.C.Multisig, Payload: []byte("manual"), Threshold: mw.C.Threshold,
+				Weights: append([]uint64{}, mw.C.Weights...), Addresses: append([]string{}, mw.C.Addresses...), Nonce: mw.C.BumpTxCount()}
+		}
+		h, txs := mw.C.AddBlock([]mnt.Tx{tx})
 		name := fmt.Sprintf("x%d", w.StepNo())
 		w.N.RegisterTxHash(txs[0].Hash, name)
 		o := world.Outcome{Out: "ok"}
